@@ -294,6 +294,7 @@ pub fn property() -> Property {
             signature: no_signature,
             essential: &["width_change_after_tab_text", "retemplate_of_cloned_style", "width_zero", "drop_with_message", "finish_message_with_tab"],
             workers: w,
+            decode: None,
         })],
     }
 }
